@@ -3,7 +3,7 @@
    (error "...") so the harness fails closed. *)
 open Sexp
 
-let handlers : (string -> t list -> t option) list = [ Drv_path.handle ]
+let handlers : (string -> t list -> t option) list = Handlers.all
 
 let dispatch (line : string) : string =
   try
